@@ -409,7 +409,12 @@ class DelGen(storegen.Gen):
             dest_owner = blk.path
         elif kind == "section":
             children = rng.random() < 0.7
-            dest = self.pick(ents, "section") if rng.random() < 0.5 else None
+            r = rng.random()
+            if r < 0.3 and len(src.path) > 2:
+                # beside the original, below the same parent: one subtree then holds two sections with one id
+                dest = next((x for x in ents if x.kind == "section" and x.path == src.path[:-2]), None)
+            else:
+                dest = self.pick(ents, "section") if r < 0.65 else None
             if dest is not None and (dest.path == src.path or dest.path[:len(src.path)] == src.path):
                 dest = None         # not into its own subtree
             out = self.do(["copy_section", dest.path if dest else None, src.path, children, keep, name])
@@ -423,16 +428,28 @@ class DelGen(storegen.Gen):
         self.count("copy %s %s" % (kind, "keeping ids" if keep else "with new ids"))
         self.do(["list", dest_owner, cname])
         self.do(["dump"])
+        new_name = name or src.name
+        if "ok" in out and kind == "section" and rng.random() < 0.6 and not real_uuid_name(new_name) \
+                and new_name not in storegen.NAMES_BAD:
+            # a link from outside to the copy (the original may be linked already): metadata of some entity
+            o = self.pick(ents, rng.choice(["data_array", "group", "tag", "block", "source", "data_frame"]))
+            if o is not None:
+                self.do(["set_role", o.path, "metadata", dest_owner + [cname, new_name]])
+                self.do(["role", o.path, "metadata"])
+                self.count("metadata link to a section copy")
         if "ok" not in out or rng.random() >= then_delete:
             return
         # delete on either side right away: the original, or the copy (found by its name in the destination)
-        new_name = name or src.name
         ents2 = inventory4(self.impl)
         cp = [e for e in ents2 if e.kind == kind and e.path[:-2] == dest_owner and e.path[-2] == cname
               and e.name == new_name]
         orig = [e for e in ents2 if e.kind == kind and e.path == src.path]
         side = rng.choice(["original", "copy"])
         pool = orig if side == "original" else cp
+        if kind == "section" and dest_owner and src.path[:len(dest_owner)] == dest_owner and rng.random() < 0.5:
+            # original and copy lie below one section: delete that one (its subtree holds two sections with one id)
+            side = "common ancestor of original and copy"
+            pool = [e for e in ents2 if e.kind == "section" and e.path == dest_owner]
         if not pool or real_uuid_name(new_name):
             return
         self.count("delete the %s right after an %s copy" % (side, "id-keeping" if keep else "id-regenerating"))
@@ -1489,6 +1506,17 @@ def copy_cases(topo):
                   cp_sec + [["del", [], "metadata", {"s": "sec"}]]))
     cases.append(("id-keeping section copy, inner section of the original, then the copy deleted",
                   cp_sec + [["del", sec, "sections", {"o": sub}], ["del", [], "metadata", {"s": "sec-copy"}]]))
+    # two sections with one id inside ONE subtree (copy beside the original), each linked from outside; the common
+    # ancestor is deleted: the whole subtree and every link into it must go
+    twin = sec + ["sections", "sub-twin"]
+    cp_in = topo + [["copy_section", sec, sub, True, True, "sub-twin"],
+                    ["set_role", B2 + ["data_arrays", "a"], "metadata", twin],
+                    ["set_role", B + ["data_arrays", "keep"], "metadata", twin + ["sections", "leaf"]],
+                    ["set_role", ["metadata", "sub"], "link", twin]]
+    cases.append(("id-keeping section copy beside the original, both linked from outside, their parent deleted",
+                  cp_in + [["del", [], "metadata", {"s": "sec"}]]))
+    cases.append(("id-keeping section copy beside the original, the copy / the original deleted",
+                  cp_in + [["del", sec, "sections", {"s": "sub-twin"}], ["del", sec, "sections", {"o": sub}]]))
     cases.append(("id-keeping property copy, original then copy deleted",
                   topo + [["copy_property", sub, sub + ["properties", "p"], "p2", True],
                           ["del", sub, "properties", {"s": "p"}],
